@@ -3,7 +3,7 @@
    tc_layout (Spec/PusSpec.v) is the independent oracle: CCSDS primary header (type TC,
    secondary header present, unsegmented, data length = total - 7), [0x20+ack; service;
    subservice; source-id hi; lo], application data, CRC-16/CCITT-FALSE (bitwise definition). *)
-From Coq Require Import ZArith List.
+From Coq Require Import ZArith List Lia.
 From SP Require Import Base.Result Base.Bytes Base.Crc16 Model.SpacePacket Spec.SpacePacketSpec
   Model.PusTc Spec.PusSpec Proofs.PusTcProofs.
 Import ListNotations.
@@ -69,3 +69,15 @@ Print Assumptions C02_new_refuses.
 
 Example C02_args_valid_inhabited : tc_args_valid 17 1 2047 16383 65535 15 [1; 2; 255].
 Proof. exact tc_valid_example. Qed.
+
+(* non-vacuity of C02_rejects_small_declared_length: 1b 1a cb 02 00 02 29 f0 1a 04 62 -- 11 octets,
+   length field 2 (declared packet length 9 < 13); refused with ValueError *)
+Example C02_small_declared_length_inhabited :
+  let d := [27; 26; 203; 2; 0; 2; 41; 240; 26; 4; 98] in
+  wf_bytes d /\ (6 <= length d)%nat /\ (forall h, sph_unpack d = Ok h -> dlen h + 7 < 13) /\
+  tc_unpack d = Err EValue /\ documented EValue = true.
+Proof.
+  cbv zeta. split; [repeat constructor; lia|]. split; [cbn; lia|].
+  split; [|split; [vm_compute; reflexivity|reflexivity]].
+  intros h E. vm_compute in E. injection E as <-. vm_compute. reflexivity.
+Qed.
